@@ -284,12 +284,12 @@ def _symptom(got, exp, ordered=True):
   return None
 
 
-def _cut_vectors(length, max_gen):
-  """Every (c1..cg), 1 <= g <= max_gen, ci >= 0, sum <= length."""
+def _cut_vectors(length, max_gen, min_gen=1):
+  """Every (c1..cg), min_gen <= g <= max_gen, ci >= 0, sum <= length."""
   out = []
 
   def rec(prefix, left):
-    if prefix:
+    if len(prefix) >= min_gen:
       out.append(tuple(prefix))
     if len(prefix) == max_gen:
       return
@@ -371,6 +371,8 @@ def check_source_history(st, spec, expected, hist, num_threads=0):
     sig, detail = res
     detail.update(case=case, expected=expected)
     st.violation(sig, detail, replay=replay)
+    return {'violation': sig}
+  return {'delivered': observed[0][0], 'final_state': observed[0][1]}
 
 
 @functools.lru_cache(maxsize=None)
@@ -388,29 +390,35 @@ def bad_position(spec):
   return rows.index(val(bad)) if val(bad) in rows else None
 
 
-def _histories(length, max_gen, transports, vias):
-  for cuts in _cut_vectors(length, max_gen):
+def _histories(length, gens, transports, vias):
+  min_gen, max_gen = gens
+  for cuts in _cut_vectors(length, max_gen, min_gen):
     for transport, via, old in itt.product(transports, vias, (False, True)):
       yield (cuts, transport, via, old)
 
 
+def _hist_dict(hist):
+  cuts, transport, via, old = hist
+  return {'consume_then_checkpoint': list(cuts), 'state_travels_as': transport,
+          'restored_via': via, 'checkpointed_iterator_drained': old}
+
+
 def _source_unit(args):
-  specs, max_gen, transports = args
+  specs, gens, transports, want_sample = args
   st = Stats()
   with _Deadline(240):
     for spec in specs:
       _, node = build_source(spec)
       expected = list(node.iterate())      # the uninterrupted run
       for nt in NUM_THREADS:
-        for hist in _histories(len(expected), max_gen, transports,
-                               SOURCE_VIAS):
-          check_source_history(st, spec, expected, hist, nt)
-  if specs:
-    st.sample({'driver': 'data source', 'source': specs[0],
-               'cut_vectors': f'all (c1..cg), g<={max_gen}, sum<=len',
-               'state_transport': list(transports), 'restore_via':
-               list(SOURCE_VIAS), 'checkpointed_iterator_continues':
-               [False, True]})
+        last = None
+        for hist in _histories(len(expected), gens, transports, SOURCE_VIAS):
+          last = (hist, check_source_history(st, spec, expected, hist, nt))
+        if want_sample and last and len(expected) >= 2 and len(
+            st.samples) < 3:
+          st.sample({'driver': 'data source', 'source': spec,
+                     'uninterrupted_run': expected,
+                     'history': _hist_dict(last[0]), 'observed': last[1]})
   return st
 
 
@@ -523,7 +531,7 @@ def check_pipeline_history(st, pspec, t, full, hist, num_threads=0):
   ex = _Executor(num_threads)
   driver = 'pipeline'
   # positions are the data source's business: name it for delivery faults
-  driver_src = f'pipeline[{_source_driver(spec)}]'
+  driver_src = f'pipeline-over-{_source_driver(spec)}'
   case = ('pipeline', shape, spec, make_shard, cuts, transport, via,
           old_continues, num_threads)
   st.case(case, nontrivial=bool(exp_out))
@@ -601,6 +609,8 @@ def check_pipeline_history(st, pspec, t, full, hist, num_threads=0):
     sig, detail = res
     detail.update(case=case, expected=exp_out, expected_agg=exp_agg)
     st.violation(sig, detail, replay=replay)
+    return {'violation': sig}
+  return {'delivered': observed[0][0], 'agg_result': observed[0][1]}
 
 
 def _uninterrupted(st, pspec, num_threads):
@@ -623,21 +633,22 @@ def _uninterrupted(st, pspec, num_threads):
 
 
 def _pipeline_unit(args):
-  pspecs, max_gen, transports = args
+  pspecs, gens, transports, want_sample = args
   st = Stats()
   with _Deadline(240):
     for pspec in pspecs:
       for nt in NUM_THREADS:
         t, full = _uninterrupted(st, pspec, nt)
-        for hist in _histories(len(full[0]), max_gen, transports, PIPE_VIAS):
-          check_pipeline_history(st, pspec, t, full, hist, nt)
-  if pspecs:
-    st.sample({'driver': 'pipeline', 'shape': pspecs[0][0], 'source':
-               pspecs[0][1], 'make_shard': pspecs[0][2],
-               'cut_vectors': f'all (c1..cg), g<={max_gen}, sum<=len',
-               'state_transport': list(transports),
-               'restore_via': list(PIPE_VIAS),
-               'checkpointed_iterator_continues': [False, True]})
+        last = None
+        for hist in _histories(len(full[0]), gens, transports, PIPE_VIAS):
+          last = (hist, check_pipeline_history(st, pspec, t, full, hist, nt))
+        if want_sample and last and len(full[0]) >= 2 and len(
+            st.samples) < 3:
+          st.sample({'driver': 'pipeline', 'shape': pspec[0],
+                     'source': pspec[1], 'make_shard': pspec[2],
+                     'uninterrupted_run': full[0],
+                     'uninterrupted_agg_result': full[1],
+                     'history': _hist_dict(last[0]), 'observed': last[1]})
   return st
 
 
@@ -725,11 +736,15 @@ def pipeline_specs(max_n, thorough):
 def run(ctx):
   quick = ctx.quick
   only = getattr(ctx, 'only', None) or HARNESSES
-  n_src = 5 if quick else 6
-  n_pipe = 4 if quick else 5
+  n_src = 5 if quick else 7
+  n_pipe = 4 if quick else 6
   max_gen = 3
+  n_src4, n_pipe4 = (0, 0) if quick else (5, 4)    # 4-generation histories
   transports = TRANSPORTS
   pipe_transports = ('object', 'pickler') if quick else TRANSPORTS
+  four = '' if quick else (
+      f'; additionally every 4-generation cut vector for sources n<={n_src4} '
+      f'and pipelines n<={n_pipe4}')
   ctx.rule = (
       f'sources: n<={n_src} rows; SequenceDataSource unsharded / shard i of k '
       f'(k in {"2..3" if quick else "2..4"}) with every offset 0..len / nested '
@@ -742,10 +757,10 @@ def run(ctx):
       f'drained; pipelines: n<={n_pipe}, shapes {list(SHAPES)} over unsharded/'
       'sharded(+offset)/nested/two-sub-sequence/ShardedIterable sources and '
       f'make(shard=), same histories with state as {list(pipe_transports)}, '
-      'restored on the iterator/a fresh make().iterate(); num_threads=0 only; '
-      'non-trivial = the uninterrupted run delivers >= 1 element; distinct = '
-      'distinct (source, pipeline shape, cut vector, transport, restore route, '
-      'continue flag)')
+      f'restored on the iterator/a fresh make().iterate(){four}; num_threads=0 '
+      'only; non-trivial = the uninterrupted run delivers >= 1 element; '
+      'distinct = distinct (source, pipeline shape, cut vector, transport, '
+      'restore route, continue flag)')
   ctx.assumptions += [
       'num_threads > 0 is not enumerated by this check (needs the '
       'deterministic scheduler)',
@@ -757,13 +772,21 @@ def run(ctx):
   if 'source' in only:
     specs = source_specs(n_src, not quick)
     ctx.notes['source_configurations'] = len(specs)
-    ctx.pmap(_source_unit, [(u, max_gen, transports) for u in
-                            enums.chunks(ctx.shuffled(specs), 128)])
+    units = [(u, (1, max_gen), transports) for u in
+             enums.chunks(ctx.shuffled(specs), 128)]
+    if n_src4:
+      units += [(u, (4, 4), transports) for u in enums.chunks(
+          ctx.shuffled(source_specs(n_src4, True)), 64)]
+    ctx.pmap(_source_unit, [u + (i == 0,) for i, u in enumerate(units)])
   if 'pipeline' in only:
     pspecs = pipeline_specs(n_pipe, not quick)
     ctx.notes['pipeline_configurations'] = len(pspecs)
-    ctx.pmap(_pipeline_unit, [(u, max_gen, pipe_transports) for u in
-                              enums.chunks(ctx.shuffled(pspecs), 128)])
+    units = [(u, (1, max_gen), pipe_transports) for u in
+             enums.chunks(ctx.shuffled(pspecs), 128 if quick else 256)]
+    if n_pipe4:
+      units += [(u, (4, 4), pipe_transports) for u in enums.chunks(
+          ctx.shuffled(pipeline_specs(n_pipe4, True)), 64)]
+    ctx.pmap(_pipeline_unit, [u + (i == 0,) for i, u in enumerate(units)])
 
 
 def _tup(x):
